@@ -194,6 +194,18 @@ def std_model(m, path, args, t):
             return none(m)
         write_back(m, args[0], ('it', a0[1][n + 1:], a0[2]))
         return some(m, a0[1][n])
+    if re.search(r'iter::(sources::repeat::)?repeat$', path) and len(args) == 1:
+        return ('rep', m.deref_value(args[0]), None)
+    if re.search(r'Iterator>?::take$|::take$', path) and len(args) == 2 and isinstance(a0, tuple) and len(a0) == 3 and a0[0] == 'rep':
+        n = m.deref_value(args[1])
+        if isinstance(n, int):
+            return ('it', [a0[1]] * n, 'repeat-take')
+    if re.search(r'Extend<.*>>::extend$|Vec::<.*>::extend$|::extend$', path) and len(args) == 2 and is_vec(a0):
+        items = as_items(m, args[1])
+        if items is None:
+            raise Unknown('extend with %r' % (m.deref_value(args[1]),))
+        write_back(m, args[0], ('vec', a0[1] + [m.deref_value(x) for x in items]))
+        return sym('unit')
     if re.search(r'Iterator>?::skip$|::skip$', path) and len(args) == 2:
         items = as_items(m, args[0])
         n = m.deref_value(args[1])
@@ -279,6 +291,11 @@ def std_model(m, path, args, t):
     if re.search(r'Vec::<.*>::push$', path) and len(args) == 2 and is_vec(a0):
         write_back(m, args[0], ('vec', a0[1] + [m.deref_value(args[1]) if not isinstance(m.deref_value(args[1]), dict) else m.deref_value(args[1])]))
         return sym('unit')
+    if re.search(r'slice::<impl \[T\]>::contains$|Vec::<.*>::contains$', path) and len(args) == 2:
+        seq = a0[1] if (is_vec(a0) or (isinstance(a0, tuple) and a0 and a0[0] == 'tuple')) else None
+        x = m.deref_value(args[1])
+        if seq is not None and isinstance(x, (int, str)) and all(isinstance(y, (int, str)) for y in seq):
+            return int(x in seq)
     if re.search(r'Vec::<.*>::remove$', path) and len(args) == 2 and is_vec(a0):
         i = m.deref_value(args[1])
         if not isinstance(i, int) or not 0 <= i < len(a0[1]):
